@@ -80,7 +80,7 @@ def corpus(batch):
 
 
 def generate(rng, tier):
-    n = 260 if tier == "quick" else 6000
+    n = 500 if tier == "quick" else 6000
     batch = rg.Batch()
     builders = corpus(batch)
     while len(builders) < n:
